@@ -137,7 +137,20 @@ class C17(Prop):
             if state["phase"] == 0:
                 state["phase"] = 1
                 d = w.h(top)
-                kind = r.choice(["port", "cable", "instance"])
+                kind = r.choice(["port", "cable", "instance", "port", "cable", "instance", "library", "definition"])
+                if kind in ("library", "definition"):
+                    # a library or a cell is renamed to a letter-case variant of its own name after the first export:
+                    # the identifier it keeps differs from the new name in case only, and the second file must still
+                    # record the name
+                    elems = list(n.libraries) if kind == "library" else [x for lib in n.libraries for x in lib.definitions]
+                    elems = [x for x in elems if "EDIF.identifier" in x and w.handle_of(x) and isinstance(x.name, str)
+                             and x.name.swapcase() != x.name]
+                    if not elems:
+                        return more()
+                    x = r.choice(elems)
+                    state["phase"] = 2
+                    return {"op": "set_name", "on": w.handle_of(x),
+                            "v": r.choice([v for v in (x.name.upper(), x.name.lower(), x.name.swapcase()) if v != x.name])}
                 sibs = [x for x in {"port": d.ports, "cable": d.cables, "instance": d.children}[kind]
                         if "EDIF.identifier" in x and w.handle_of(x)] if d is not None else []
                 sibs = [x for x in sibs if not (kind == "cable" and (x.is_array or len(x.wires) > 1))]
@@ -150,6 +163,8 @@ class C17(Prop):
                     state["ident"] = x.name
                     return {"op": {"port": "remove_port", "cable": "remove_cable", "instance": "remove_child"}[kind],
                             "on": top, "x": w.handle_of(x)}
+                if r.random() < 0.25 and isinstance(x.name, str) and x.name.swapcase() != x.name:
+                    return {"op": "set_name", "on": w.handle_of(x), "v": x.name.swapcase()}     # (case-only rename)
                 return {"op": "set_name", "on": w.handle_of(x), "v": "was_%d" % r.randint(0, 10 ** 6)}
             if state["phase"] == 1:
                 state["phase"] = 2
